@@ -3,14 +3,14 @@ import json, os
 from vlib import *
 
 RULE = ("ser: seeded random object trees (depth <= 8, <= 200 nodes; strings over all chars incl. ( ) \\ CR LF NUL and non-ASCII, "
-        "all 256 bytes in hex strings, regular names incl. controls/non-ASCII/'R', extreme i64, reals incl. -0, 5e-7, 2^53, 9.2e18) "
-        "through BOTH private serializers (hook) then PdfObject::parse; every char U+0000..U+017F as a string and as a name; "
+        "all 256 bytes in hex strings, names over the whole alphabet: white space, delimiters, '#', '#'+digits, controls, 'R', empty, and (one tree in four) non-ASCII; extreme i64, reals incl. -0, 5e-7, 2^53, 9.2e18) "
+        "through BOTH private serializers (hook) then PdfObject::parse, names compared as Rust Strings; every char U+0000..U+017F as a string and as a name/key (ASCII ones also first/last in a name); fixed irregular names; "
         "plus small trees of the four known classes. lex: fixed + random token text the writer never emits (octal, nested parens, "
         "#xx, odd hex, signs, comments, skipped bytes) -> PdfObject::parse vs the model. incr: incremental writer's serializer. "
         "non-trivial = nested tree with >= 3 nodes (ser/incr), text longer than 6 bytes (lex); distinct by case text")
 
 KNOWN = {
-    "name-irregular": "C09-name-raw",
+    "name-nonascii": "C09-name-nonascii",
     "int-int-nameR": "C09-int-int-nameR",
     "real-ge-2p63": "C09-real-ge-2p63",
     "objnum-gt-9999999": "C09-objnum-gt-9999999",
